@@ -270,6 +270,7 @@ def _main(pid, args, seed, t0):
 
     # ---- 1-3: facts, build, audit (serialised: lake and the Facts files are shared) ----------
     build_ok, build_errors, audit_results, audit_problems = True, [], {}, []
+    leanchecker = 'not run (quick tier)'
     with open(os.path.join(VERIF, '.lock'), 'w') as lockf:
         fcntl.flock(lockf, fcntl.LOCK_EX)
         facts, facts_changed = extract_facts(reg.get('facts_pid', pid))
@@ -283,6 +284,14 @@ def _main(pid, args, seed, t0):
                 raise MachineryError('lake build failed without a Lean error:\n' + out[-1500:])
             if build_ok:
                 audit_results, audit_problems = audit(pid, reg)
+                if tier == 'thorough' and not os.environ.get('VERIF_NO_LEANCHECKER'):
+                    # independent re-check of the compiled proof modules by the toolchain's
+                    # stand-alone kernel checker
+                    rc3, out3 = run_cmd(['lake', 'env', 'leanchecker', *reg['lean_modules']],
+                                        cwd=LEAN, timeout=2400)
+                    leanchecker = 'ok' if rc3 == 0 else 'FAILED: ' + out3[-300:]
+                    if rc3 != 0:
+                        audit_problems.append('leanchecker rejected the compiled modules: ' + out3[-300:])
             driver_path = None
             if drv:
                 rc2, out2, _ = lake_build([drv])
@@ -296,14 +305,15 @@ def _main(pid, args, seed, t0):
             driver_path = cand if cand and os.path.exists(cand) else None
     try:
         return _after_build(pid, args, seed, t0, reg, known, tier, facts, facts_changed,
-                            build_ok, build_errors, audit_results, audit_problems, driver_path)
+                            build_ok, build_errors, audit_results, audit_problems, driver_path,
+                            leanchecker)
     finally:
         if driver_path and driver_path.startswith(WORK) and os.path.exists(driver_path):
             os.unlink(driver_path)
 
 
 def _after_build(pid, args, seed, t0, reg, known, tier, facts, facts_changed, build_ok,
-                 build_errors, audit_results, audit_problems, driver_path):
+                 build_errors, audit_results, audit_problems, driver_path, leanchecker='n/a'):
     drift = fingerprint_drift(reg.get('facts_pid', pid), facts)
     reasons = []
     if tier == 'thorough':
@@ -381,6 +391,7 @@ def _after_build(pid, args, seed, t0, reg, known, tier, facts, facts_changed, bu
         'model_driver_lines': ctx.model_lines,
         'broken_obligations': broken,
         'known_findings_confirmed': sorted(seen),
+        'leanchecker': leanchecker,
     }
     for k in ('evaluations', 'distinct_nontrivial', 'rule', 'samples', 'exhaustive',
               'traces_validated_against_impl', 'disagreements_checked', 'histogram',
